@@ -16,7 +16,8 @@
  *   ops <bs> <skip_fallocate> <n> <limit_0..limit_n-1> <op>*
  *        a history on n initially empty splits.  ops:  O (close + parity_create again)   R<size> (parity_chsize)
  *        W<pos>:<seed> (parity_write of bytes (seed+j)&255)   D<pos> (parity_read)   T (parity_truncate)
- *                                                -> one token per op (o | r<ret>[m<is_modified>] | w<ret> | d<hex>|d-1 | t<ret>) then
+ *        L<s>:<limit> (the growth limit of split s changes from now on: disk space freed / used up)
+ *                                                -> one token per op (o | r<ret>[m<is_modified>] | w<ret> | d<hex>|d-1 | t<ret> | l) then
  *                                                   "|" {<recorded>:<hex of the file>}*n     ("-" for an empty file)
  *        the history stops at the first failing R (the tool exits there).
  */
@@ -269,6 +270,16 @@ static void cmd_ops(char* rest)
 		case 'T' :
 			printf("t%d ", parity_truncate(&hnd));
 			break;
+		case 'L' : {
+			unsigned sp = strtoul(tok + 1, 0, 10);
+			long long l = strtoll(strchr(tok, ':') + 1, 0, 10);
+			if (sp < n) {
+				lim[sp] = l;
+				if (opened) hnd.split_map[sp].limit_size = l;
+			}
+			printf("l ");
+			break;
+		}
 		default :
 			printf("badop ");
 			stop = 1;
